@@ -20,7 +20,7 @@ pub fn def() -> PropDef {
         quick_cases: 1_200_000,
         thorough_cases: 60_000_000,
         rule: "case = (x, y, z in Fq2) with components from the limb-boundary classes of C06 (incl. zero components, top-heavy stored values, related components); all operator forms of + - * neg, real/imaginary/is_even/is_zero, to_slice/from_slice, ring laws, the internal squared/inverse/scale/div2/double/triple/mul_by_nonresidue/unitary_inverse and the interleaved sum_of_products (hooks) compared with integer pairs mod q and with the ark-ff reference; the carry class u>>256 of each two-term sum of products is computed in the model; non-trivial = some component from a boundary class or carry class >= 1; distinct by (x,y,z)",
-        required: &["sop2:carry0", "sop2:carry1", "comp:zero", "x:real-only", "x:imag-only", "comp:limb-mont", "comp:limb-mont-top", "inverse:zero"],
+        required: crate::runner::req(&["sop2:carry0", "sop2:carry1", "comp:zero", "x:real-only", "x:imag-only", "comp:limb-mont", "comp:limb-mont-top", "inverse:zero"]),
         enumerate: None,
         enumerate_note: "two-term sums of products have u < 1.72*2^256, so carry class 2 is arithmetically unreachable here (it is required in C17's four-term products)",
         also_dbg: false,
